@@ -237,5 +237,8 @@ func dumpModRef(w *World, name string) {
 			m = append(m, v.String())
 		}
 		fmt.Println("MOD", name, m)
+		for k := range w.MR.Via[f] {
+			fmt.Println("   via", k.fv.Name(), k.via)
+		}
 	}
 }
